@@ -75,6 +75,27 @@ def gen(rnd, tier):
                 continue
             bs = [97 + (i % 26) for i in range(pad)] + f + [120, 121]
             cases.append(D.bytes_case(bs, [256], tag="boundary"))
+    # complete events that end exactly where a full read ends, with nothing (EOF / a failing read / an empty read) after:
+    # the event must still be delivered (these are stream cases: the Spec is evaluated on the real output)
+    def key_ev(seq):
+        for i, ent in enumerate(D.ref()):
+            if list(ent[0]) == seq:
+                return ("key", i, False)
+        return None
+    tails = [key_ev([27, 91, 65]), key_ev([27, 79, 80]), key_ev([27, 91, 49, 59, 50, 65]), key_ev([27, 91, 49, 53, 126]),
+             ("ctl", 13, True), ("x10", 0, 1, 2), ("sgr", 0, 1, 1, False), ("ctl", 1, False)]
+    # (events that could still grow - a rune run, ESC + rune, a lone ESC - are legitimately held back after a full read
+    #  and are not in this list: "bytes are held back only while an event may still be incomplete")
+    for ev in [t for t in tails if t is not None]:
+        for nread in (1, 2):
+            pad = 256 * nread - len(D.encode(ev))
+            evs = [("runes", [97 + (i % 26) for i in range(pad)]), ev]
+            for err in ("eof", "fail"):
+                for with_empty_read in (False, True):
+                    c = D.stream_case(evs, [256], err=err, tag="boundary-end")
+                    if not with_empty_read and c["chunks"] and c["chunks"][-1] == []:
+                        c["chunks"].pop()
+                    cases.append(c)
     # unterminated pastes growing over several reads
     for ln in [0, 1, 250, 256, 600]:
         cases.append(D.bytes_case([27, 91, 50, 48, 48, 126] + soup(rnd, ln), [256], err="fail", tag="open-paste"))
@@ -84,7 +105,7 @@ def gen(rnd, tier):
 def run(res, tier, seed):
     rnd = random.Random(seed * 104729 + 9)
     cases, dcases = gen(rnd, tier)
-    return D.run_family(res, "C09", "C09", cases, dcases, spec_on_streams=False,
+    return D.run_family(res, "C09", "C09", cases, dcases, spec_on_streams=True,
                         rule="byte soup biased to escape-sequence fragments, invalid UTF-8, NULs, huge numbers; chunkings 1..256 incl. exactly-256 and zero-byte reads; EOF and failing reads; cancellation after 0..6 messages; every fragment truncated at every length with and without canHaveMoreData; all single bytes and ESC+byte; fragments at the 256 boundary; distinct = distinct (chunking, bytes, cancel, err)")
 
 
